@@ -306,7 +306,7 @@ Expire(s) ==
 
 CliInvalidate(s) ==
   /\ s \in DOMAIN cli.sess
-  /\ cli' = IF "MappingsLeftBehind" \in Bug THEN [cli EXCEPT !.sess = Rm(cli.sess, s)] ELSE Dropped(s)
+  /\ cli' = Dropped(s)
   /\ mayReuse' = MapWithout(mayReuse, s)
   /\ gone' = gone \cup {s}
   /\ last' = [act |-> "CliInvalidate", sid |-> s]
